@@ -120,10 +120,10 @@ def check_accounting(ctx, facts, prefix, names, rule='accounting-balance'):
             else:
                 for k in range(leave):
                     pair = minus[2 * k:2 * k + 2]
-                    kinds = sorted(sc.get(p.lstrip('?'), ('?', '?'))[0] for p in pair)
+                    kinds = sorted(sc.get(norm_tag(p.lstrip('?')), ('?', '?'))[0] for p in pair)
                     if kinds != ['key', 'value']:
                         problems.add('a leaving entry is not credited with its key size and its value size (%s)' % pair)
-                    vt = [sc.get(p.lstrip('?'), ('?', '?')) for p in pair if sc.get(p.lstrip('?'), ('?', '?'))[0] == 'value']
+                    vt = [sc.get(norm_tag(p.lstrip('?')), ('?', '?')) for p in pair if sc.get(norm_tag(p.lstrip('?')), ('?', '?'))[0] == 'value']
                     wtags = [tag_of(e[2]) or '' for e in o.events if e[0] == 'let' and who and e[1] == who[k]]
                     if vt and who and wtags and not any(vt[0][1].startswith(w) for w in wtags if w) and not vt[0][1].startswith(who[k]):
                         problems.add('the value size credited on leave is taken from %s, not from the leaving entry %s' % (vt[0][1], who[k]))
